@@ -219,6 +219,10 @@ def iskwarg_complete():
 
 def run(tier, seed):
     chk = Check("C15", tier, seed, "exploration")
+    from ..kernels import c01_argfind
+    from ..kernels.base import run_kernel
+    for k in c01_argfind.KERNELS_C15:
+        chk.add_kernel(run_kernel(k, tier))
     n, fails = iskwarg_complete()
     chk.add_rule("C15.P.iskwarg", not fails, [f"{n} (function, name) pairs incl. functools.wraps-decorated functions sharing one code object"], fails[:3])
     m = 8 if tier == "quick" else 400
@@ -236,5 +240,5 @@ def run(tier, seed):
     chk.add_bounded("recording user functions through adapt_numpylike_reduce / adapt_numpylike_elementwise vs the loop interpreter (values, call count, axis=, equal-rank broadcastable arguments, keyword-only forwarding across cache hits, name clashes, wrong outputs)",
                     f"{m} chunks x 24 templates", len(res), len({(r[1]['description'], str(r[1]['shapes'])) for r in res}), failures=fails, samples=[r[1] for r in res[:2]])
     chk.assumptions += ["adapt_with_vmap: no framework with vmap is importable here - NOT decided", "only the numpy adapters"]
-    chk.explanation = "contracts on the adapter entry points evaluated at run time with argument-recording user functions; bounded exploration (no unbounded kernel beyond the finite keyword-only predicate)"
+    chk.explanation = "contracts on the adapter entry points evaluated at run time with argument-recording user functions (bounded); unbounded: the axis= argument (_expr_to_axis: positions of the bracketed children, all ranks) and the finite keyword-only predicate"
     return chk
